@@ -106,10 +106,18 @@ type State struct {
 	ac    *Term
 	held  map[string]*Term // lockset: lock path -> Int (0 none, 1 read, 2 write)
 	evs   *Term            // ghost event counter / trace handle (Int)
+	atlock *State          // state right after the last lock acquisition (guarded state havocked), for atlock()
+}
+
+func (s *State) heapOr(name string, dflt *Term) *Term {
+	if t, ok := s.heaps[name]; ok {
+		return t
+	}
+	return dflt
 }
 
 func (s *State) clone() *State {
-	n := &State{heaps: make(map[string]*Term, len(s.heaps)), cells: make(map[*CellKey]*Term, len(s.cells)), ac: s.ac, held: map[string]*Term{}, evs: s.evs}
+	n := &State{heaps: make(map[string]*Term, len(s.heaps)), cells: make(map[*CellKey]*Term, len(s.cells)), ac: s.ac, held: map[string]*Term{}, evs: s.evs, atlock: s.atlock}
 	for k, v := range s.heaps {
 		n.heaps[k] = v
 	}
@@ -169,6 +177,8 @@ type Options struct {
 type rootCtx struct {
 	heap0     map[string]*Term
 	ac0       *Term // allocation counter at function entry
+	held0     map[string]*Term     // symbolic lock levels at entry (per lock key)
+	heldInfo  map[string]*GuardInfo // lock key -> guard declaration of that lock
 	heapSorts map[string]string
 	strLits   map[string]*Term
 	cellN     int
@@ -901,6 +911,12 @@ func (e *Exec) mergeStates(edges []edgeIn) *State {
 		gs[i] = ed.g
 	}
 	n := &State{heaps: map[string]*Term{}, cells: map[*CellKey]*Term{}, held: map[string]*Term{}}
+	n.atlock = edges[0].st.atlock
+	for _, ed := range edges {
+		if ed.st.atlock != n.atlock {
+			n.atlock = nil
+		}
+	}
 	names := map[string]bool{}
 	for _, ed := range edges {
 		for k := range ed.st.heaps {
@@ -1289,6 +1305,11 @@ func (e *Exec) enterLoop(lp *Loop) {
 		e.heap0(k, heaps[k])
 		e.st.heaps[k] = e.vc.Fresh(k, heaps[k])
 	}
+	if _, ok := heaps["GH.clock"]; ok {
+		// the ghost clock only moves forward across iterations
+		e.vc.Assume(True, SGe(e.st.heaps["GH.clock"], stIn.heapOr("GH.clock", e.clock0())))
+		e.vc.Assume(True, App("time_ok", SBool, e.st.heaps["GH.clock"]))
+	}
 	e.assumeLoopFrame(lp, hn)
 	nac := e.vc.Fresh("ac", SInt)
 	e.vc.Assume(True, IntLe(e.st.ac, nac))
@@ -1676,4 +1697,14 @@ func (e *Exec) refRel(a, b *Term) (eq, neq bool) {
 		return false, true
 	}
 	return false, false
+}
+
+// clock0: the ghost clock at function entry (a well-formed instant).
+func (e *Exec) clock0() *Term {
+	_, had := e.root.heap0["GH.clock"]
+	t := e.heap0("GH.clock", STime)
+	if !had {
+		e.vc.Assume(True, App("time_ok", SBool, t))
+	}
+	return t
 }
